@@ -375,7 +375,8 @@ async fn eng_case(rng: &mut Rng, sum: &mut Summary, thorough: bool) -> EngCase {
             // a peer that is already listed announces itself again from ANOTHER address: pure refresh
             let id = present[rng.below(present.len() as u64) as usize];
             let ip = match scenario { 2 => Ip::V4(base4 | 0x0001), 3 => Ip::V6(base6 | 1), _ => pool.pick(rng) };
-            let (form, text) = render(rng, ip, match rng.below(4) { 0 => 0, 1 => 1, _ => 3 });
+            let sel = match rng.below(4) { 0 => 0, 1 => 1, _ => 3 };
+            let (form, text) = render(rng, ip, sel);
             sum.count("engine:reannounce");
             EOp::Add { id, form, text, valid: rng.chance(1, 2) }
         } else if evict {
